@@ -1,12 +1,39 @@
 #!/bin/bash
-# harness/seedall.sh - regression over all kept seeds: each must be detected by (one of) the check(s) named first in its meta.json
+# harness/seedall.sh [workers] - regression over all kept seeds: each must be detected by (one of) the check(s) named in its
+# meta.json.  Runs in private scratch worktrees of /repo (QUICKADD_REPO), several side by side; /repo itself is not touched.
+# The worktrees live under ${SEED_SCRATCH:-/tmp/qa_seedwt} and are removed at the end.
+W="${1:-4}"
+S="${SEED_SCRATCH:-/tmp/qa_seedwt}"
 cd /verif
-for d in seeded/*/; do
-  n=$(basename $d)
+mkdir -p "$S"
+ls -d seeded/C*/ | sed 's|/$||' > "$S/list"
+one() {
+  slot="$1"; d="$2"; n=$(basename "$d")
+  wt="$S/wt$slot"
+  git -C "$wt" checkout -q -- . 
   ids=$(python3 -c "
-import json,re,sys
+import json,re
 m=json.load(open('$d/meta.json'))
 print(' '.join(sorted({re.match(r'(C\d\d)', x).group(1) for x in m['detected_by']})))")
-  out=$(harness/seedrun.sh /verif/${d%/}/patch.diff $ids 2>&1)
-  if echo "$out" | grep -q "^DETECTED"; then echo "ok      $n  ($(echo "$out" | grep -c '^DETECTED') of $(echo $ids | wc -w) checks)"; else echo "MISSED  $n: $out" | cut -c1-300; fi
+  if ! git -C "$wt" apply "/verif/$d/patch.diff" 2>/dev/null; then echo "NOAPPLY $n"; return; fi
+  det=0; tot=0; msg=""
+  for id in $ids; do
+    tot=$((tot+1))
+    out=$(QUICKADD_OUT="$S/out$slot" QUICKADD_REPO="$wt" VERIF_SEED="${VERIF_SEED:-0}" ./check "$id" --tier quick 2>&1); rc=$?
+    if [ $rc -eq 1 ] && echo "$out" | grep -q "^VIOLATION"; then det=$((det+1)); else msg="$msg [$id rc=$rc]"; fi
+  done
+  git -C "$wt" checkout -q -- .
+  if [ $det -gt 0 ]; then echo "ok      $n  ($det of $tot checks)$msg"; else echo "MISSED  $n $msg"; fi
+}
+export -f one; export S
+for k in $(seq 1 "$W"); do
+  [ -d "$S/wt$k" ] || git -C /repo worktree add -q --detach "$S/wt$k" HEAD
+  git -C "$S/wt$k" checkout -q --detach "$(git -C /repo rev-parse HEAD)"
 done
+# slot = (line number mod W) + 1; each slot works through its lines sequentially
+for k in $(seq 1 "$W"); do
+  ( awk -v k="$k" -v w="$W" 'NR % w == k % w' "$S/list" | while read d; do one "$k" "$d"; done ) &
+done
+wait
+for k in $(seq 1 "$W"); do git -C /repo worktree remove --force "$S/wt$k"; done
+git -C /repo worktree prune
